@@ -6,9 +6,13 @@ extern "C" {
 // provided by the harness (uninstrumented)
 void *radix_alloc(size_t n);
 void radix_free(void *p, size_t n);
+void radix_val_ctor(void *p); // a value object came into existence at p / its destructor runs (mode 0 only)
+void radix_val_dtor(void *p);
 // instrumented glue
+// mode 0: value type with a user-provided constructor (key, seq, check) and destructor, both reporting to the harness;
+// mode 1: the plain aggregate RVal, inserted WITHOUT constructor arguments (value-initialised), filled in by the user afterwards
 size_t sut_tree_size();
-void sut_tree_construct(void *mem);
+void sut_tree_construct(void *mem, int mode);
 void sut_tree_destroy(void *mem);
 void *sut_find(void *tree, uint64_t key);
 void *sut_find_or_insert(void *tree, uint64_t key, uint64_t seq, int *inserted);
